@@ -182,13 +182,18 @@ type osVar struct {
 	needInit bool
 }
 
+// a side-effect-free single-assignment temporary that could not be translated (`kByte := k[t/8]`):
+// kept only for substitution into opaque expressions (opnorm.go); any other use is an unknown variable
+type osDeferred struct{ e ast.Expr }
+
 type osBind struct {
-	elem   *osVar // element variable (value or pointer)
-	ptr    bool
-	intv   *osVar
-	typ    string            // struct type
-	fields map[string]*osVar // struct binding
-	name   string            // display name of a struct binding
+	deferred *osDeferred
+	elem     *osVar // element variable (value or pointer)
+	ptr      bool
+	intv     *osVar
+	typ      string            // struct type
+	fields   map[string]*osVar // struct binding
+	name     string            // display name of a struct binding
 }
 
 type osInstr struct {
@@ -221,6 +226,8 @@ type osCtx struct {
 	opaque  []*osVar
 	depth   int
 	retVar  *osVar
+	// the statements being translated at the top level (for the single-assignment checks of opnorm.go)
+	scan []ast.Stmt
 	// call path of the statement being translated ("Add#1"), for the comments of the output
 	inlineTag string
 }
@@ -875,10 +882,24 @@ func (c *osCtx) assign(sc *osScope, x *ast.AssignStmt) error {
 	}
 	switch x.Tok {
 	case token.DEFINE:
-		if want, ok := c.fc.opaque[id.Name]; ok && c.depth == 0 {
-			got := c.p.text(rhs)
+		if wantText, ok := c.fc.opaque[id.Name]; ok && c.depth == 0 {
+			// compared in NORMAL FORM (opnorm.go): temporaries substituted, parentheses dropped,
+			// commutative operands sorted
+			want, err := osNormText(wantText)
+			if err != nil {
+				return err
+			}
+			got, err := osNorm(rhs, func(n string) ast.Expr {
+				if b, ok := sc.m[n]; ok && b.deferred != nil {
+					return b.deferred.e
+				}
+				return nil
+			}, 0)
+			if err != nil {
+				return c.p.errAt(x, "opaque definition of %s: %v", id.Name, err)
+			}
 			if got != want {
-				return c.p.errAt(x, "opaque definition of %s changed: %q (configured %q)", id.Name, got, want)
+				return c.p.errAt(x, "opaque definition of %s changed: normal form %q (configured %q)", id.Name, got, want)
 			}
 			v := c.newVar(sc.prefix+id.Name, true)
 			v.input, v.written = true, true
@@ -888,9 +909,17 @@ func (c *osCtx) assign(sc *osScope, x *ast.AssignStmt) error {
 			return nil
 		}
 		// the right-hand side is evaluated before the new variable comes into scope
+		nVars, nTemp, nInstr := len(c.vars), c.nTemp, len(c.instrs)
 		v := c.newVar(sc.prefix+id.Name, true)
 		mark := len(c.instrs)
 		if _, err := c.intExpr(sc, rhs, v); err != nil {
+			// not an int expression of the subset: a pure single-assignment temporary is kept for
+			// substitution into opaque expressions only
+			if c.depth == 0 && osCanDefer(c.scan, id.Name, rhs) {
+				c.vars, c.nTemp, c.instrs = c.vars[:nVars], nTemp, c.instrs[:nInstr]
+				sc.m[id.Name] = &osBind{deferred: &osDeferred{rhs}}
+				return nil
+			}
 			return err
 		}
 		if len(c.instrs) > mark {
@@ -1140,7 +1169,6 @@ func osTranslate(p *osPkg, fc *osFnCfg) (*osResult, error) {
 			lo, hi = forIdx, forIdx
 			body = loop.Body.List
 			// loop header as facts
-			c.facts = append(c.facts, [2]string{"loop", "for " + p.text(loop.Init) + "; " + p.text(loop.Cond) + "; " + p.text(loop.Post)})
 			as, ok := loop.Init.(*ast.AssignStmt)
 			if !ok || as.Tok != token.DEFINE || len(as.Lhs) != 1 || len(as.Rhs) != 1 {
 				return nil, p.errAt(loop, "%s: unsupported loop initialisation", fc.fn)
@@ -1151,7 +1179,11 @@ func osTranslate(p *osPkg, fc *osFnCfg) (*osResult, error) {
 			}
 			c.facts = append(c.facts, [2]string{"loop.var", p.text(as.Lhs[0])})
 			c.facts = append(c.facts, [2]string{"loop.start", strconv.FormatInt(iv, 10)})
-			c.facts = append(c.facts, [2]string{"loop.cond", p.text(loop.Cond)})
+			ncond, err := osNorm(loop.Cond, nil, 0)
+			if err != nil {
+				return nil, p.errAt(loop, "%s: loop condition: %v", fc.fn, err)
+			}
+			c.facts = append(c.facts, [2]string{"loop.cond", ncond})
 			c.facts = append(c.facts, [2]string{"loop.post", p.text(loop.Post)})
 		case "finish":
 			lo = forIdx + 1
@@ -1207,6 +1239,7 @@ func osTranslate(p *osPkg, fc *osFnCfg) (*osResult, error) {
 		}
 	}
 
+	c.scan = body
 	if err := c.stmts(sc, body, true); err != nil {
 		return nil, err
 	}
